@@ -3,8 +3,8 @@
 From Coq Require Import List Arith.
 From GV.lib Require Import Semiring BigSum.
 From GV.model Require Import Cfg Norm.
-From GV.gen Require Import Gen_Exprs.
-From GV.proofs Require Import NormProofs.
+From GV.gen Require Import Gen_Exprs Gen_Cfg.
+From GV.proofs Require Import NormProofs GenCfgBridge.
 Import ListNotations.
 
 (* If Z solves the grammar equations and Z[X] <> 0, the normalised weights of X's rules sum to one. *)
@@ -46,3 +46,9 @@ Theorem C20_add_eos_shape : forall (S : SR) (G : grammar S) (s' s eos : nat) (h 
     = bsum (splits ys) (fun p => smul (W G h s (fst p)) (match snd p with [e] => if Nat.eqb eos e then s1 else s0 | _ => s0 end)).
 Proof. intros; apply add_eos_W_new; assumption. Qed.
 Print Assumptions C20_add_eos_shape.
+
+(* add_EOS as regenerated from cfglm.py is the model's add_eos. *)
+Theorem C20_code_add_eos_is_model : forall (S : SR) (s' s eos : nat) (G : grammar S),
+  gen_add_eos S s' s eos G = add_eos s' s eos G.
+Proof. intros; apply gen_add_eos_model. Qed.
+Print Assumptions C20_code_add_eos_is_model.
